@@ -128,7 +128,8 @@ impl Verifier {
 }
 
 /// try to say what the foreign bytes are: a window of some message of the same cell?
-pub fn identify(actual: &[u8], candidates: &[(u64, u64)]) -> Option<String> {
+/// which message of the cell do the foreign bytes come from: (message, offset, its size)
+pub fn identify_msg(actual: &[u8], candidates: &[(u64, u64)]) -> Option<(u64, u64, u64)> {
     if actual.len() < 8 {
         return None;
     }
@@ -150,18 +151,27 @@ pub fn identify(actual: &[u8], candidates: &[(u64, u64)]) -> Option<String> {
             buf.clear();
             ks_append(*msg, base, len, &mut buf);
             if let Some(p) = crate::peers::h1::memfind(&buf, needle) {
-                let o = base + p as u64;
-                return Some(format!(
-                    "the bytes equal bytes {}..{} of message {} ({}, {} bytes long)",
-                    o,
-                    o + needle.len() as u64,
-                    msg,
-                    if msg & 1 == 0 { "a request body" } else { "a response body" },
-                    size
-                ));
+                return Some((*msg, base + p as u64, *size));
             }
             base += STEP;
         }
+    }
+    None
+}
+
+pub fn identify(actual: &[u8], candidates: &[(u64, u64)]) -> Option<String> {
+    if actual.len() < 8 {
+        return None;
+    }
+    if let Some((msg, o, size)) = identify_msg(actual, candidates) {
+        return Some(format!(
+            "the bytes equal bytes {}..{} of message {} ({}, {} bytes long)",
+            o,
+            o + actual.len().min(16) as u64,
+            msg,
+            if msg & 1 == 0 { "a request body" } else { "a response body" },
+            size
+        ));
     }
     // framing leaked into the body?
     let printable = actual.iter().take(16).filter(|b| b.is_ascii_graphic() || **b == b' ' || **b == b'\r' || **b == b'\n').count();
